@@ -36,6 +36,8 @@ enum Tamper {
     /// LastAttempt time := now - 2 h (only meaningful for a point without a manifest)
     AgeAttempt { ca: String },
     DeletePoint { ca: String },
+    /// replace the stored point by a bare marker: no manifest, LastAttempt = now + offset seconds
+    Marker { ca: String, offset: i64 },
     /// keep the header, cut the file 3 bytes into the manifest
     TruncatePoint { ca: String },
     /// a junk file below <cache>/stored/rsync/
@@ -266,6 +268,12 @@ fn apply_tamper(world: &World, t: &Tamper) {
             }
         }
         Tamper::DeletePoint { ca } => { let _ = std::fs::remove_file(point_path(world, ca)); }
+        Tamper::Marker { ca, offset } => {
+            let path = point_path(world, ca);
+            let uri = uri::Rsync::from_str(&world.built.truth.ca(ca).expect("ca").mft_uri).expect("uri");
+            let h = StoredPointHeader::verif_from_parts(uri, None, false, Time::now() + chrono::Duration::seconds(*offset));
+            write_point(&path, &h, &None, &[]);
+        }
         Tamper::TruncatePoint { ca } => {
             let path = point_path(world, ca);
             if let Some((h, Some(_), _)) = read_point(&path) {
@@ -544,6 +552,12 @@ fn gen(rng: &mut Rng, tier: &str) -> Vec<(String, Value)> {
         out.push(case("marker-aged-unvisited", &w2, 0, vec![s0()], vec![Tamper::AgeAttempt { ca: "X".into() }], last(1, false)));
         out.push(case("marker-recent-unvisited", &w2, 0, vec![s0()], vec![], last(1, false)));
     }
+    // bare markers of points that are not visited in the last run: an old one goes, one "from the future" (clock
+    // skew) is retained and keeps its rsync module like a stored point would
+    for (cls, off) in [("marker-old-unvisited", -7200), ("marker-future-unvisited", 3600)] {
+        out.push(case(cls, &w, 0, vec![s0()], vec![Tamper::Marker { ca: "A1".into(), offset: off }, Tamper::ExpirePoint { ca: "A3".into() }], last(1, false)));
+    }
+    out.push(case("marker-old-visited", &w, 0, vec![s0()], vec![Tamper::Marker { ca: "X".into(), offset: -7200 }], last(0, false)));
     // junk everywhere
     out.push(case("junk", &w, 0, vec![s0()], all_junk.clone(), last(0, false)));
     out.push(case("junk-dirty", &w, 0, vec![s0()], all_junk.clone(), last(0, true)));
@@ -587,7 +601,7 @@ fn gen(rng: &mut Rng, tier: &str) -> Vec<(String, Value)> {
             else if rng.chance(1, 12) { t.push(Tamper::TruncatePoint { ca: ca.into() }); }
             else if ca == "A1" && rng.chance(1, 8) { t.push(Tamper::ToRrdpTree { ca: ca.into(), notify: "https://rrdp.alpha.example/notification.xml".into() }); }
         }
-        if rng.chance(1, 3) { t.push(Tamper::AgeAttempt { ca: "X".into() }); }
+        if rng.chance(1, 3) { t.push(Tamper::Marker { ca: rng.pick(&["X", "A1", "A3"]).to_string(), offset: *rng.pick(&[-7200i64, 3600]) }); }
         rng.shuffle(&mut t);
         let history = if rng.chance(1, 5) { vec![s0(), ServePlan::step(1)] } else { vec![s0()] };
         let mut plan = ServePlan::step(rng.below(2) as usize);
